@@ -373,9 +373,17 @@ def r4_use_syntax(ctx, rep):
     rep.ob("USE arm records (module name, tail)", ok, "", py.nloc(a.test))
 
 
+
+def r5_externalised_tables(ctx, rep):
+    """renames survive externalisation (shared with C16.R2): the pub_* tables are written to and read from
+    modules.json under the keys (local names) they have in the exporting module"""
+    from . import c16
+    c16.table_keys_kept(ctx, rep)
+
 RULES = [
     RuleSpec("C06.R1", r1_rename_map, "the rename map reaches every import", floor=4),
     RuleSpec("C06.R2", r2_public_only, "only public things cross a module boundary", floor=7),
     RuleSpec("C06.R3", r3_dependency_order, "modules are correlated in dependency order", floor=5),
     RuleSpec("C06.R4", r4_use_syntax, "USE statement syntax", floor=9),
+    RuleSpec("C06.R5", r5_externalised_tables, "renamed re-exports survive externalisation (shared with C16.R2)", floor=2),
 ]
